@@ -35,6 +35,7 @@ class Analyzer(Interp):
         self.calls = []
         self.watch_index = None        # predicate(buffer id): log every index into such a buffer with the state at that point
         self.index_log = []
+        self.return_hook = None        # callable(analyzer, fn, return node, state, frame) before a return expression is evaluated
         self._gbusy = set()
 
     # ---- sizes of objects whose address is taken ---------------------------------------------------------------
@@ -350,6 +351,8 @@ class Analyzer(Interp):
         if k == 'ReturnStmt':
             ks = fn.kids(n)
             for s in states:
+                if ks and self.return_hook is not None and self.recording:
+                    self.return_hook(self, fn, n, s, fr)
                 if ks:
                     for s2, v in self.ev(fn, ks[0], s, fr):
                         s2.ret_site = n
